@@ -203,21 +203,97 @@ pub fn known_findings() -> BTreeMap<String, (String, String)> {
     m
 }
 
+/// real-time budget of one run's child process (a run takes well under a millisecond; a child that
+/// is still there after this long is blocked on something the simulator does not control)
+const RUN_TIMEOUT_MS: u64 = 30_000;
+
+/// runs per child process: process creation is amortised over a few runs; whatever a run leaves
+/// behind (parked threads, process-wide state of a changed tree) lives for at most this many runs,
+/// and a violation found in any but the first run of a child is confirmed in a fresh process
+const RUNS_PER_CHILD: u64 = 8;
+
+fn child_runs(prop: &str, batch_seed: u64, lo: u64, hi: u64, fixed_family: Option<&str>) -> Result<Vec<Stats>, String> {
+    let timeout = RUN_TIMEOUT_MS + 2_000 * (hi - lo);
+    match crate::isolate::in_child(
+        || {
+            let v: Vec<Stats> = (lo..hi).map(|i| run_one(prop, batch_seed, i, fixed_family)).collect();
+            serde_json::to_vec(&v).unwrap_or_default()
+        },
+        timeout,
+    ) {
+        crate::isolate::ChildEnd::Done(bytes) => serde_json::from_slice::<Vec<Stats>>(&bytes).map_err(|e| format!("runs {lo}..{hi}: unreadable result from the runs' process: {e}")),
+        crate::isolate::ChildEnd::TimedOut => Err(format!(
+            "runs {lo}..{hi} made no progress for {} s: the code under test blocks outside the simulator's control (real lock, real sleep or I/O?)",
+            timeout / 1000
+        )),
+        crate::isolate::ChildEnd::Crashed(why) => Err(format!("runs {lo}..{hi}: {why}")),
+    }
+}
+
 pub fn run_chunk(prop: &str, batch_seed: u64, from: u64, to: u64, fixed_family: Option<&str>) -> Stats {
+    let isolate = std::env::var("VERIF_NO_FORK").is_err();
+    let mut st = Stats::default();
+    let fail = |why: String| -> ! {
+        eprintln!("simcheck: harness error: {why}");
+        std::process::exit(2)
+    };
+    let mut lo = from;
+    while lo < to {
+        if st.violations_total >= 8 {
+            // the batch stops anyway once a violation has been reported
+            st.next_from = Some(lo);
+            break;
+        }
+        let hi = (lo + RUNS_PER_CHILD).min(to);
+        if !isolate {
+            for i in lo..hi {
+                st.merge(run_one(prop, batch_seed, i, fixed_family));
+            }
+            lo = hi;
+            continue;
+        }
+        let results = child_runs(prop, batch_seed, lo, hi, fixed_family).unwrap_or_else(|e| fail(e));
+        for (k, mut one) in results.into_iter().enumerate() {
+            let i = lo + k as u64;
+            if k > 0 && one.violations_total > 0 {
+                // not the first run of its process: does it say the same in a fresh one?
+                let again = child_runs(prop, batch_seed, i, i + 1, fixed_family).unwrap_or_else(|e| fail(e)).pop().unwrap_or_default();
+                let same = |a: &Stats, b: &Stats| a.violations.iter().any(|x| b.violations.iter().any(|y| x.prop == y.prop && x.clause == y.clause));
+                if again.violations_total > 0 && same(&one, &again) {
+                    one = again;
+                } else {
+                    // depends on what earlier runs left behind in the process: the code under test
+                    // keeps process-wide state.  Not reported; the fresh-process result counts.
+                    one = again;
+                    *one.inconclusive.entry("differs_in_a_fresh_process_(process_wide_state_in_the_code_under_test)".into()).or_default() += 1;
+                }
+            }
+            // the same run in a second fresh process must give the same history and schedule
+            if i % 256 == 0 {
+                if let Ok(mut two) = child_runs(prop, batch_seed, i, i + 1, fixed_family) {
+                    if let Some(two) = two.pop() {
+                        st.determinism_rechecked += 1;
+                        if k == 0 && (two.histories != one.histories || two.schedules != one.schedules) {
+                            st.determinism_mismatch += 1;
+                        }
+                    }
+                }
+            }
+            st.merge(one);
+        }
+        lo = hi;
+    }
+    st
+}
+
+/// one run and everything the batch wants to know about it
+pub fn run_one(prop: &str, batch_seed: u64, i: u64, fixed_family: Option<&str>) -> Stats {
     let p = spec(prop).expect("unknown property");
     let known = known_findings();
     let hunt = std::env::var("VERIF_HUNT").ok();
     let dump = std::env::var("VERIF_DUMP_HASHES").is_ok();
     let mut st = Stats::default();
-    // threads parked for ever by deadlocked runs stay with this process until it exits
-    let mut leaked_threads = 0usize;
-    for i in from..to {
-        if leaked_threads > 1500 || st.violations_total >= 8 {
-            // hand the rest of the chunk back: a fresh process starts without the leaked threads
-            // (the batch stops anyway once a violation has been reported)
-            st.next_from = Some(i);
-            break;
-        }
+    {
         let fam = fixed_family.unwrap_or_else(|| family_of(p, batch_seed, i));
         let seed = run_seed(batch_seed ^ fnv(fam.as_bytes()), i);
         let prog = crate::gen::generate(fam, seed);
@@ -241,9 +317,6 @@ pub fn run_chunk(prop: &str, batch_seed: u64, from: u64, to: u64, fixed_family: 
         for (k, n) in &rec.out.faults {
             *st.faults.entry(k.to_string()).or_default() += n;
         }
-        if matches!(rec.out.end, simrt::End::Deadlock | simrt::End::Leaked) {
-            leaked_threads += rec.out.blocked.len();
-        }
         match rec.out.end {
             simrt::End::StepLimit => *st.inconclusive.entry("step_limit".into()).or_default() += 1,
             simrt::End::ReplayDiverged => *st.inconclusive.entry("replay_diverged".into()).or_default() += 1,
@@ -256,8 +329,9 @@ pub fn run_chunk(prop: &str, batch_seed: u64, from: u64, to: u64, fixed_family: 
             let dh = crate::model::fnv(&rec.out.decisions.iter().flat_map(|d| d.to_le_bytes()).collect::<Vec<u8>>());
             st.run_hashes.push((i, hh, dh));
         }
-        // determinism re-check on a sample
-        if i % 256 == 0 {
+        // determinism re-check on a sample (in the same process only when runs are not isolated;
+        // isolated runs are re-checked by a second child, see run_chunk)
+        if i % 256 == 0 && std::env::var("VERIF_NO_FORK").is_ok() {
             let rec2 = crate::exec::run_program(&prog, seed, None, false);
             st.determinism_rechecked += 1;
             if rec2.history_hash() != hh || rec2.out.decisions != rec.out.decisions {
